@@ -276,6 +276,34 @@ func GenModes(r *vh.Rng, s *SchemaSpec) Modes {
 	return m
 }
 
+// FanOutModes: as GenModes, but every function field below the root runs as many work units: Expensive
+// (one unit per source) or batch / plain split into up to 100 parallel invocations.
+func FanOutModes(r *vh.Rng, s *SchemaSpec) Modes {
+	m := GenModes(r, s)
+	for _, t := range s.Types {
+		if t.Name == "Query" {
+			continue
+		}
+		for _, f := range t.Fields {
+			if f.Struct {
+				continue
+			}
+			md := m[t.Name+"."+f.Name]
+			switch r.Intn(3) {
+			case 0:
+				md.Kind, md.Par = "expensive", 0
+			case 1:
+				md.Kind, md.Par = "batch", 5
+			default:
+				md.Kind, md.Par = "plain", 5
+			}
+			md.UseBatch = false
+			m[t.Name+"."+f.Name] = md
+		}
+	}
+	return m
+}
+
 // PlainModes: every function field a plain FieldFunc.
 func PlainModes(s *SchemaSpec) Modes {
 	m := Modes{}
